@@ -21,6 +21,7 @@ import (
 	"github.com/bytom/bytom/crypto/ed25519/chainkd"
 	"github.com/bytom/bytom/database/storage"
 	dbm "github.com/bytom/bytom/database/leveldb"
+	"github.com/bytom/bytom/protocol"
 	"github.com/bytom/bytom/protocol/bc"
 	"github.com/bytom/bytom/protocol/bc/types"
 	"github.com/bytom/bytom/protocol/state"
@@ -36,7 +37,7 @@ import (
 //
 //   reset <cbPending> <defaultPending> <b:e:n,..> <p2w:owner,..>        parameters + program table
 //   block <id> <parent> <height> T<c> C | S<asset>,<amt> | I<kind>,<out>,<okind>,<asset>,<amt>,<prog>,<vote>,<gk>,<gh> | O<out>,<kind>,<asset>,<amt>,<prog>,<vote> ...
-//   attach <id> | detach <id>
+//   attach <id> | detach <id> | pool <block> <txindex> | unpool <block> <txindex>   (wallet.AddUnconfirmedTx / RemoveUnconfirmedTx)
 //   impl line (attach/detach): ok|skip [valid=1 gvalid=1 novote=b] st=<workH>,<work>,<bestH>,<best> utxos=<out>:<asset>:<amt>:<prog>:<vote>:<acct>:<validHeight>;...
 //
 // Direct oracles (no model):
@@ -50,6 +51,10 @@ const (
 	c25SigStale   = "usable wallet UTXO is not in the consensus UTXO set (vote output of a detached block, F14)"
 	c25SigF15     = "restored coinbase/vote output has ValidHeight 0 and is reported mature while consensus still locks it"
 	c25SigPending = "vote ValidHeight uses VotePendingBlockNums(created height) but consensus uses VotePendingBlockNums(spend height)"
+	// an output that is both a wallet-DB record and still in the keeper's unconfirmed map (its
+	// unconfirmed copy was computed by txOutToUtxos(tx, 0) and carries another ValidHeight)
+	c25SigParticularUnc = "ReserveParticular(use_unconfirmed) hands out a locked confirmed output through its unconfirmed copy"
+	c25SigFindUnc       = "findUtxos(use_unconfirmed) lists a locked confirmed output through its unconfirmed copy"
 )
 
 type w24prog struct {
@@ -512,39 +517,88 @@ func (s *w24) oracleMature(op string) {
 	}
 	tip := s.blocks[s.chain[len(s.chain)-1]]
 	keeper := account.VerifKeeperOf(s.am)
+	dbRecs := map[bc.Hash]*account.UTXO{}
+	type class struct {
+		acct  string
+		asset bc.AssetID
+		vote  string
+	}
+	classes := map[class]bool{}
+	var order []bc.Hash
 	for _, u := range s.w.GetAccountUtxos("", "", false, false, false) {
-		res, err := keeper.ReserveParticular(u.OutputID, false, time.Unix(1, 0))
-		if err != nil {
-			if err != account.ErrImmature {
-				s.fail("keeper rejects a wallet UTXO for an unexpected reason", err.Error())
-			}
-			s.c.Count("c25/immature")
-			continue
-		}
-		keeper.Cancel(res.ID)
-		_, ln := s.utxoLine(u)
+		dbRecs[u.OutputID] = u
+		order = append(order, u.OutputID)
+		classes[class{u.AccountID, u.AssetID, string(u.Vote)}] = true
+	}
+	// h = the record the keeper handed out as usable (how = which entry point)
+	probe := func(h *account.UTXO, how string, sigUnc string) {
+		db := dbRecs[h.OutputID]
+		_, ln := s.utxoLine(h)
 		view := state.NewUtxoViewpoint()
-		e, ok := tip.view[u.OutputID]
+		e, ok := tip.view[h.OutputID]
 		if ok {
-			view.Entries[u.OutputID] = &e
+			view.Entries[h.OutputID] = &e
 		}
-		probe := &bc.Tx{TxHeader: &bc.TxHeader{}, SpentOutputIDs: []bc.Hash{u.OutputID}}
+		ptx := &bc.Tx{TxHeader: &bc.TxHeader{}, SpentOutputIDs: []bc.Hash{h.OutputID}}
 		nb := &bc.Block{BlockHeader: &bc.BlockHeader{Height: s.height + 1}}
-		err = view.ApplyTransaction(nb, probe)
+		err := view.ApplyTransaction(nb, ptx)
 		if err == nil {
 			s.c.Count("c25/usable-and-spendable")
-			continue
+			return
 		}
-		detail := fmt.Sprintf("after %q at height %d: wallet UTXO %s is reported mature, consensus at height %d says: %v", op, s.height, ln, s.height+1, err)
+		detail := fmt.Sprintf("after %q at height %d: %s reports wallet UTXO %s as mature, consensus at height %d says: %v", op, s.height, how, ln, s.height+1, err)
 		switch {
-		case !ok && len(u.Vote) > 0:
+		case db != nil && h.ValidHeight != db.ValidHeight && db.ValidHeight > s.height:
+			s.fail(sigUnc, detail+fmt.Sprintf(" (the wallet-DB record of this output has ValidHeight %d, the unconfirmed copy %d)", db.ValidHeight, h.ValidHeight))
+		case !ok && len(h.Vote) > 0:
 			s.fail(c25SigStale, detail)
-		case ok && u.ValidHeight == 0 && (e.Type == storage.CoinbaseUTXOType || e.Type == storage.VoteUTXOType):
+		case ok && (h.ValidHeight == 0 || (db != nil && db.ValidHeight == 0)) && (e.Type == storage.CoinbaseUTXOType || e.Type == storage.VoteUTXOType):
+			// restored by a detach (F15); a pool copy of the same output, if any, is no better
 			s.fail(c25SigF15, detail+fmt.Sprintf(" (entry type %d created at %d)", e.Type, e.BlockHeight))
 		case ok && e.Type == storage.VoteUTXOType && consensus.VotePendingBlockNums(e.BlockHeight) != consensus.VotePendingBlockNums(s.height+1):
 			s.fail(c25SigPending, detail+fmt.Sprintf(" (created at %d: pending %d, at spend height pending %d)", e.BlockHeight, consensus.VotePendingBlockNums(e.BlockHeight), consensus.VotePendingBlockNums(s.height+1)))
 		default:
 			s.fail("usable wallet UTXO is not spendable at the next height: "+ln, detail)
+		}
+	}
+	for _, id := range order {
+		for _, useUnc := range []bool{false, true} {
+			res, err := keeper.ReserveParticular(id, useUnc, time.Unix(1, 0))
+			if err != nil {
+				if err != account.ErrImmature {
+					s.fail("keeper rejects a wallet UTXO for an unexpected reason", err.Error())
+				}
+				s.c.Count("c25/immature")
+				continue
+			}
+			keeper.Cancel(res.ID)
+			probe(res.UTXOs[0], fmt.Sprintf("ReserveParticular(use_unconfirmed=%v)", useUnc), c25SigParticularUnc)
+		}
+	}
+	// what Reserve would consider spendable now, per (account, asset, vote) class
+	var cls []class
+	for c := range classes {
+		cls = append(cls, c)
+	}
+	sort.Slice(cls, func(i, j int) bool {
+		return cls[i].acct+cls[i].asset.String()+cls[i].vote < cls[j].acct+cls[j].asset.String()+cls[j].vote
+	})
+	for _, c := range cls {
+		for _, useUnc := range []bool{false, true} {
+			asset := c.asset
+			var vote []byte
+			if c.vote != "" {
+				vote = []byte(c.vote)
+			}
+			listed, _ := keeper.FindUtxos(c.acct, &asset, useUnc, vote)
+			sort.Slice(listed, func(i, j int) bool { return listed[i].OutputID.String() < listed[j].OutputID.String() })
+			for _, h := range listed {
+				if dbRecs[h.OutputID] == nil {
+					continue // only in the pool: not an output of the chain yet
+				}
+				s.c.Count("c25/listed-by-findUtxos")
+				probe(h, fmt.Sprintf("findUtxos(use_unconfirmed=%v)", useUnc), c25SigFindUnc)
+			}
 		}
 	}
 }
@@ -564,6 +618,33 @@ func (s *w24) exec(line string) {
 			return
 		}
 		result = s.defBlock(w)
+	case "pool", "unpool":
+		if s.db == nil || len(w) != 3 {
+			return
+		}
+		bid, _ := strconv.Atoi(w[1])
+		ti, _ := strconv.Atoi(w[2])
+		b, ok := s.blocks[bid]
+		if !ok || ti >= len(b.blk.Transactions) {
+			return
+		}
+		func() {
+			defer func() {
+				if p := recover(); p != nil {
+					s.fail("wallet pool event handler panics", fmt.Sprint(p))
+				}
+			}()
+			if w[0] == "pool" {
+				s.w.AddUnconfirmedTx(&protocol.TxDesc{Tx: b.blk.Transactions[ti]})
+			} else {
+				s.w.RemoveUnconfirmedTx(&protocol.TxDesc{Tx: b.blk.Transactions[ti]})
+			}
+		}()
+		s.c.Count(w[0])
+		result = "ok"
+		if s.mode == "c25" {
+			s.oracleMature(line)
+		}
 	case "attach", "detach":
 		if s.db == nil || len(w) != 2 {
 			return
@@ -632,6 +713,8 @@ type g24out struct {
 type g24blk struct {
 	id, parent, height int
 	unspent            map[int]*g24out
+	walletTxs          []int // indices of non-coinbase transactions paying a wallet program
+	attachedOnce       bool
 }
 
 type g24 struct {
@@ -643,6 +726,7 @@ type g24 struct {
 	nextOut int
 	tip     int
 	pend    func(h uint64) uint64
+	pooled  [][2]int
 }
 
 func (g *g24) pickProg(ownedBias int) int {
@@ -787,7 +871,21 @@ func (g *g24) newBlock(parent int) int {
 			}
 		}
 	}
-	g.blocks[id] = &g24blk{id: id, parent: parent, height: h, unspent: unspent}
+	nb := &g24blk{id: id, parent: parent, height: h, unspent: unspent}
+	ti := -1
+	for _, tok := range w[4:] {
+		if tok[0] == 'T' {
+			ti++
+		}
+		if tok[0] == 'O' && ti > 0 {
+			f := strings.Split(tok[1:], ",")
+			pi, _ := strconv.Atoi(f[4])
+			if pi >= 1 && pi <= 4 && (len(nb.walletTxs) == 0 || nb.walletTxs[len(nb.walletTxs)-1] != ti) {
+				nb.walletTxs = append(nb.walletTxs, ti)
+			}
+		}
+	}
+	g.blocks[id] = nb
 	g.x.exec(strings.Join(w, " "))
 	return id
 }
@@ -814,8 +912,26 @@ func (g *g24) switchTo(target int) {
 	}
 	for i := len(path) - 1; i >= 0; i-- {
 		if g.tip == 0 && g.blocks[path[i]].parent == 0 || g.blocks[path[i]].parent == g.tip {
+			// the pool announces some of the block's wallet transactions before the block arrives
+			// (MsgNewTx), and its MsgRemoveTx may be handled only later
+			nb := g.blocks[path[i]]
+			for _, ti := range nb.walletTxs {
+				if g.r.Intn(3) == 0 {
+					g.x.exec(fmt.Sprintf("pool %d %d", path[i], ti))
+					g.pooled = append(g.pooled, [2]int{path[i], ti})
+				}
+			}
 			g.x.exec(fmt.Sprintf("attach %d", path[i]))
 			g.tip = path[i]
+			var keep [][2]int
+			for _, p := range g.pooled {
+				if g.r.Intn(3) == 0 {
+					g.x.exec(fmt.Sprintf("unpool %d %d", p[0], p[1]))
+				} else {
+					keep = append(keep, p)
+				}
+			}
+			g.pooled = keep
 		}
 	}
 }
